@@ -1,5 +1,6 @@
 (* C06 — lemmas about the model of cmsys/record.go (Model/C06.v). *)
 From Verif Require Import Base.Common Model.C06.
+From Verif Require Export Proofs.C06_names.
 Ltac Zify.zify_post_hook ::= Z.to_euclidean_division_equations.
 
 (* entry i of the file is parsable and is tn *)
@@ -1536,3 +1537,37 @@ Proof.
   assert (Ci : i = 0 \/ i = 1 \/ i = 2 \/ i = 3) by lia. assert (Cj : j = 0 \/ j = 1 \/ j = 2 \/ j = 3) by lia.
   destruct Ci as [->|[->|[->| ->]]], Cj as [->|[->|[->| ->]]]; cbv in Hi, Hj; inversion Hi; inversion Hj; subst; cbn; lia.
 Qed.
+
+(* ---- GetRecords returns the records themselves, for every count ---- *)
+(* cmsys.GetRecords(start, n, desc) from a position inside the file: min(n, what is left in the listing direction)
+   summaries, the j-th of which is (position start +- j, the record stored at that position) - for EVERY n, also one that
+   spans several read blocks: a summary handed out earlier is not changed by reading further *)
+Theorem getrecords_eq_scan es start n desc : 1 <= start <= lenZ es ->
+  get_records es start n desc =
+    FOk (map (tag es) (zseq (dir desc) start (Nat.min n (Z.to_nat (remn es desc start))))).
+Proof.
+  intros Hs. unfold get_records.
+  destruct (Z.ltb_spec start 1) as [E|_]; [lia|].
+  rewrite grl_closed by (destruct desc; cbn [remn]; lia). reflexivity.
+Qed.
+
+Example getrecords_two_blocks :
+  let es := map (fun i => Some (i / 3, i)) (zseq 1 0 300) in
+  get_records es 1 150 false = FOk (map (fun i => (i + 1, Some (i / 3, i))) (zseq 1 0 150)) /\
+  get_records es 300 150 true = FOk (map (fun i => (i + 1, Some (i / 3, i))) (zseq (-1) 299 150)).
+Proof. vm_compute. split; reflexivity. Qed.
+
+(* ---- the site configuration is not an input of lookup and paging ---- *)
+Lemma config_independent sd op rest : 2 <= sd <= 8 ->
+  run_case ([20; sd; op] :: rest) = run_case ([op] :: rest).
+Proof.
+  intros Hsd. unfold run_case. cbn [cfg_split]. rewrite Z.eqb_refl.
+  replace ((2 <=? sd) && (sd <=? 8)) with true; [reflexivity|].
+  symmetry. apply andb_true_iff. split; apply Z.leb_le; lia.
+Qed.
+
+Example config_independent_instance :
+  run_case [[20; 8; 2]; [1607190000; 291; 1607203395; 3948]; [2; 1607213395; 3948]] = [ST_ERR; E_NOTFOUND] /\
+  run_case [[20; 8; 2]; [1607190000; 291; 1607203395; 3948]; [2; 1607203395; 3948]] = [ST_OK; 2] /\
+  run_case [[20; 8; 21]; [8; 1607203395; 3948; 1607213395; 3948]] = [ST_OK; 0].
+Proof. vm_compute. repeat split. Qed.
